@@ -85,8 +85,39 @@ def alternatives(g, fnkey):
         return out
     counter = [0]
     for i, a in enumerate(split(g, fb["tail"], site=fnkey, path=(fnkey,), counter=counter)):
-        out.append(AltEntry(i, a["lit"], a["rest"], a["labels"], a["maps"], a["values"], a["site"], a["commit"], a["head"], a["path"]))
+        maps, values = _fold_constant(g, a)
+        out.append(AltEntry(i, a["lit"], a["rest"], a["labels"], maps, values, a["site"], a["commit"], a["head"], a["path"]))
     return out
+
+
+def _fold_constant(g, a):
+    """`X.value(V).map(f)` yields the constant f(V), and `.value(Type::from(V))` the constant it computes: when the value is
+    computed from constants only and comes out as a field-less variant of one of the crate's enums, the alternative is
+    presented as `.value(Enum::Variant)` (evaluation by vlib/probe.py).  Anything else is left as written."""
+    maps, values = a["maps"], a["values"]
+    if not values or values[0] is None:
+        return maps, values
+    v0 = values[0]
+    plain_path = v0.get("k") == "path"
+    if plain_path and not maps:
+        return maps, values
+    facts = g.b.facts
+    from . import probe as P
+
+    try:
+        site = a.get("site")
+        mod = facts.fns[site].module if site in facts.fns else ()
+        pr = P.Probe(facts, None, tuple(mod))
+        val = pr.ev(v0, {})
+        for f_ in maps:
+            val = pr.apply(pr.ev(f_, {}), [val])
+    except (P.NoEval, P.Panic, KeyError):
+        return maps, values
+    if isinstance(val, tuple) and len(val) == 3 and val[0] == "enum" and not val[2] and "::" in val[1]:
+        en, var = val[1].split("::")[-2:]
+        if en in facts.enums and var in facts.variants(en) and not facts.variant_fields(en, var):
+            return (), ({"k": "path", "l": v0.get("l"), "segs": [en, var], "gen": [[], []], "qself": None, "global": False},) + tuple(values[1:])
+    return maps, values
 
 
 def flatten_rest(g, rest):
